@@ -6,14 +6,7 @@ cd /verif
 mkdir -p build/logs evidence replays
 export PYTHONPATH=/repo/src PYTHONHASHSEED=0 PYTHONWARNINGS=ignore
 # translator-generated files (regenerated again by every check)
-/venv/bin/python harness/translate_history.py > /dev/null
-/venv/bin/python - <<'PY' || true
-import sys; sys.path.insert(0,'/verif/harness')
-import translate_user_actions, translate_name_mapping, translate_utils, translate_numpy_utils, translate_toggle, translate_candgraph, translate_core
-translate_user_actions.regenerate(); translate_name_mapping.regenerate(); translate_utils.regenerate()
-translate_numpy_utils.regenerate_labels(); translate_numpy_utils.regenerate_relabel()
-translate_toggle.regenerate(); translate_candgraph.regenerate(); translate_core.regenerate()
-PY
+/venv/bin/python harness/regen_all.py > build/logs/setup_translate.log 2>&1 || true
 harness/gen_coqproject.sh
 # -k: a proof file that no longer compiles must not stop the rest from building; the check of every
 # property whose closure contains it reports the broken obligation itself. Only the extraction
